@@ -14,6 +14,7 @@ import (
 	"github.com/datastax/go-cassandra-native-protocol/message"
 	"github.com/datastax/go-cassandra-native-protocol/primitive"
 
+	"verif/fakecass"
 	"verif/mon"
 	"verif/px"
 	"verif/rawcql"
@@ -29,6 +30,7 @@ func init() {
 
 type c14Client struct {
 	cl         *rawcql.Client
+	zombie     bool
 	registered bool // REGISTER incl. SCHEMA_CHANGE acknowledged
 	regTypes   []primitive.EventType
 	proxy      int
@@ -92,7 +94,7 @@ func c14History(c *Ctx, idx int) {
 	steps := 8 + rng.Intn(10)
 	scenario := map[string]interface{}{"kind": "c14", "idx": idx}
 	c.Step("c14 history idx=%d hosts=%d steps=%d twoProxies=%v", idx, hosts, steps, twoProxies)
-	bed, err := px.NewBed(px.BedConfig{Hosts: hosts, NumConns: 1, Keyspaces: []string{"ks1"}, KeepBodies: true, ReconnectBase: time.Millisecond, ReconnectMax: 3 * time.Millisecond})
+	bed, err := px.NewBed(px.BedConfig{Hosts: hosts, NumConns: 1, Keyspaces: []string{"ks1"}, KeepBodies: true, ReconnectBase: time.Millisecond, ReconnectMax: 3 * time.Millisecond, RefreshWindow: 20 * time.Millisecond})
 	if err != nil {
 		r.Inconc("c14: cannot start bed: " + err.Error())
 		return
@@ -210,14 +212,86 @@ func c14History(c *Ctx, idx int) {
 			cc.cl.Close()
 			<-cc.cl.Closed()
 			// the proxy notices the close asynchronously; a barrier-less "disconnected" client simply must not disturb others
+		case x < 54 && len(beds) == 1:
+			shape.WriteString("z")
+			// zombies: registered clients whose proxy-side reader is busy in a slow USE while the client goes away; the proxy
+			// only notices when it writes to them. Other clients must not be disturbed by that.
+			bed.Cluster.SetSlowUse("slowks", 400*time.Millisecond)
+			nz := 2 + rng.Intn(3)
+			for z := 0; z < nz; z++ {
+				zc := newClient(0, []primitive.EventType{primitive.EventTypeSchemaChange})
+				if zc == nil {
+					continue
+				}
+				zc.registered = false // never a must-target again
+				zc.zombie = true
+				_ = zc.cl.Send(2, &message.Query{Query: "USE slowks"})
+			}
+			time.Sleep(20 * time.Millisecond) // the USE frames are being served
+			for _, cc := range clients {
+				if cc.zombie {
+					cc.cl.Close()
+				}
+			}
+			r.Obs("zombie_rounds", 1)
+			// several events while the zombies are still registered inside the proxy
+			ex := &expectation{must: map[*c14Client]bool{}, may: map[*c14Client]bool{}}
+			for _, cc := range clients {
+				if cc.registered && !cc.cl.IsClosed() {
+					ex.must[cc] = true
+				}
+			}
+			for k := 0; k < 12; k++ {
+				evSeq++
+				id := fmt.Sprintf("%d_%d", idx, evSeq)
+				ev := schemaEvent(id, rng.Intn(15))
+				injected[id] = ev
+				expect[id] = ex
+				if bed.Cluster.Emit(ev) < len(beds) {
+					delete(expect, id)
+				}
+				r.Obs("schema_events_injected", 1)
+				time.Sleep(2 * time.Millisecond)
+			}
+			time.Sleep(450 * time.Millisecond) // the slow USEs end, the proxy notices the closed sockets
+			if !barrier() {
+				return
+			}
 		case x < 58:
 			shape.WriteString("f")
 			// control-connection failover between bursts
 			if !barrier() {
 				return
 			}
-			for _, x := range bed.Cluster.ControlConns() {
-				x.Kill(rng.Intn(2) == 0)
+			if hosts >= 2 && len(beds) == 1 && rng.Intn(2) == 0 {
+				// the refresh fails on a healthy connection (system.peers answered with an error): the proxy must give that
+				// connection up (close it) and fail over; a lingering old connection would keep receiving events
+				old := bed.Cluster.EstablishedControlConns()
+				bed.Cluster.SystemOverride = func(x *fakecass.Conn, table string) message.Message {
+					if table == "peers" && len(old) > 0 && x.ID == old[0].ID {
+						return &message.ServerError{ErrorMessage: "peers unavailable"}
+					}
+					return nil
+				}
+				bed.Cluster.Emit(&message.TopologyChangeEvent{ChangeType: primitive.TopologyChangeTypeNewNode, Address: &primitive.Inet{Addr: net.ParseIP("10.9.8.7"), Port: 9042}})
+				moved := waitFor(func() bool {
+					for _, x := range bed.Cluster.EstablishedControlConns() {
+						if len(old) > 0 && x.ID != old[0].ID {
+							return true
+						}
+					}
+					return false
+				}, 20*time.Second)
+				bed.Cluster.SystemOverride = nil
+				if !moved {
+					r.Inconc("c14: no fail-over observed after a failed refresh")
+					return
+				}
+				r.Obs("control_failovers_after_failed_refresh", 1)
+			} else {
+				for _, x := range bed.Cluster.ControlConns() {
+					x.Kill(rng.Intn(2) == 0)
+				}
 			}
 			if !controlUp() {
 				r.Inconc("c14: control connection did not come back after failover")
@@ -297,7 +371,7 @@ func c14History(c *Ctx, idx int) {
 					ev := schemaEvent(id, rng.Intn(15))
 					injected[id] = ev
 					expect[id] = ex
-					if bed.Cluster.Emit(ev) != len(beds) {
+					if bed.Cluster.Emit(ev) < len(beds) {
 						// the control connection is not up on every proxy: the premise does not hold for this event
 						delete(expect, id)
 					}
@@ -378,7 +452,7 @@ func runC14(c *Ctx) {
 	r := c.R
 	r.Assume("events are injected only on a control connection that is up; failover is forced between bursts")
 	r.Assume("EVENT frames are framed with the cluster's negotiated version whatever the client's version; content is compared after decoding")
-	r.Require("must_deliveries_checked", "topology_events_injected", "status_events_injected", "control_failovers")
+	r.Require("must_deliveries_checked", "topology_events_injected", "status_events_injected", "control_failovers", "zombie_rounds", "control_failovers_after_failed_refresh")
 	n := c.Pick(160, 1600)
 	for i := 0; i < n; i++ {
 		if c.Replay != nil && c.Replay["kind"] == "c14" {
